@@ -139,7 +139,7 @@ def no_data_branches(f, paths):
 BLOCK = 64
 
 
-def hmac_keyblock_events(ck_ob, f, label, mask, keyarg, lenarg, tagname, statearg=0, extra_consts=None, expect_prefix=None):
+def hmac_keyblock_events(ck_ob, f, label, mask, keyarg, lenarg, tagname, statearg=0, extra_consts=None, expect_prefix=None, local_state=False):
     """run f once per key-length class and check the events that set the key block up:
        class n <= 64 : hash_init(S); hash_update(S, (key ^ mask)[0..n) || mask^(64-n), 64); clean(block, 64)
        class  > 64   : hash_init(S); hash_update(S, key, keylen); hash_finalize(S, tmp); then as above with key := the 32-byte digest
@@ -163,11 +163,22 @@ def hmac_keyblock_events(ck_ob, f, label, mask, keyarg, lenarg, tagname, statear
             raise Broken("HMAC %s: key length class %s does not give one straight path (%d paths; ends %s): loop not resolved or data-dependent control"
                          % (tagname, cname, len(paths), [p.end[0] for p in paths][:4]))
         p = rets[0]
-        ev = calls(p)
+        ev_all = calls(p)
+        # wipes of local temporaries are not part of the hashing sequence: they are collected (with their position) and required as a
+        # set - the key block must be wiped after it was absorbed, wherever the statement stands; a wipe before the use shows in the data
+        wipes = [(i_, e) for i_, e in enumerate(ev_all) if e[2] == "tinyjambu_clean" and e[3][0].startswith("alloca")]
+        ev = [e for e in ev_all if not (e[2] == "tinyjambu_clean" and e[3][0].startswith("alloca"))]
+        pos_of = {id(e): i_ for i_, e in enumerate(ev_all)}
         if expect_prefix:
             ev = expect_prefix(p, ev, cname)
             if ev is None:
                 continue
+        if local_state:
+            # the HMAC object is a local of f (the one-shot function): its name is taken from the first hash call
+            h0_ = [e for e in ev if e[2].startswith("tinyjambu_hash_")]
+            if not h0_ or not h0_[0][3][0].startswith("alloca"):
+                raise Broken("%s: the hashing sequence does not start on a local state: this shape is not analysed" % f.name)
+            S = h0_[0][3][0]
         var = [e for e in p.events if e[0] == "VARMEM"]
         c(not var, "%s-resolved(%s)" % (tagname, cname), "all copies have constant lengths in this class", "variable-length copy not resolved in class %s: %s" % (cname, [e[3] for e in var][:2]))
         if cname == "len>64":
@@ -185,24 +196,25 @@ def hmac_keyblock_events(ck_ob, f, label, mask, keyarg, lenarg, tagname, statear
             n = consts[lenarg]
             keybytes = inbytes(KEY, n)
         want = xor_const(keybytes, mask) + const_bytes(mask, BLOCK - n)
-        ok3 = len(rest) >= 3 and [e[2] for e in rest[:3]] == ["tinyjambu_hash_init", "tinyjambu_hash_update", "tinyjambu_clean"]
-        c(ok3, "%s-sequence(%s)" % (tagname, cname), "key block: hash_init; hash_update(block, 64); clean(block)",
-          "key block set-up is %s, expected hash_init; hash_update(block,64); clean(block,64)" % [e[2] for e in rest[:4]])
+        ok3 = len(rest) >= 2 and [e[2] for e in rest[:2]] == ["tinyjambu_hash_init", "tinyjambu_hash_update"]
+        c(ok3, "%s-sequence(%s)" % (tagname, cname), "key block: hash_init; hash_update(block, 64) (and the block wiped afterwards)",
+          "key block set-up is %s, expected hash_init; hash_update(block,64)" % [e[2] for e in rest[:4]])
         if not ok3:
             continue
-        i_, u_, cl_ = rest[:3]
+        i_, u_ = rest[:2]
+        cl_ = None
+        for wi_, w_ in wipes:
+            if w_[3][0] == u_[3][1] and wi_ > pos_of[id(u_)]:
+                cl_ = w_
+        if cl_ is None:
+            cl_ = (None, None, None, ("(no wipe of the block after it was absorbed)", "-"))
         c(i_[3][0] == S and u_[3][0] == S, "%s-state(%s)" % (tagname, cname), "the inner hash state of this HMAC object is used", "hash calls use %s / %s instead of the object's hash state" % (i_[3][0], u_[3][0]))
         okd = u_[4] is not None and len(u_[4]) == BLOCK and all(tuple(x) == tuple(y) for x, y in zip(u_[4], want))
         c(okd and u_[3][2] == "64", "%s-block(%s)" % (tagname, cname),
           "64-byte block absorbed = (key ^ 0x%02X) for %d key byte(s), 0x%02X for the other %d" % (mask, n, mask, BLOCK - n),
           "block absorbed for key-length class %s differs from (key ^ 0x%02X) || 0x%02X-padding: %s" % (cname, mask, mask, first_byte_diff(u_[4], want)), relpath(f.insts[u_[5]].where))
         c(cl_[3][0] == u_[3][1] and cl_[3][1] == "64", "%s-wiped(%s)" % (tagname, cname), "the key block is wiped (64 bytes)", "key block not wiped: clean(%s, %s)" % cl_[3][:2])
-        # further wipes of local temporaries of the helper (a digest buffer, ...) belong to the key block set-up: they hash nothing and,
-        # being modelled as zeroing, any later use of the wiped bytes shows up in the data of the later events
-        tail = list(rest[3:])
-        while tail and tail[0][2] == "tinyjambu_clean" and tail[0][3][0].startswith("alloca") and tail[0][3][0] != u_[3][1]:
-            tail.pop(0)
-        out[cname] = (p, tail)
+        out[cname] = (p, list(rest[2:]), [w_ for _wi, w_ in wipes]) if not local_state else (p, list(rest[2:]), [w_ for _wi, w_ in wipes], S, [e for e in ev_all if e[2] in ("tinyjambu_hmac_free", "tinyjambu_clean")])
     return out
 
 
@@ -225,7 +237,7 @@ def check_hmac(ck_ob, mod, label):
             n += 1
             continue
         res = hmac_keyblock_events(ck_ob, f, label, 0x36, 1, 2, "ipad")
-        for cname, (p, rest) in res.items():
+        for cname, (p, rest, _wipes) in res.items():
             ck_ob(not rest, "SEQ", f.name, "init-nothing-more(%s)[%s]" % (cname, label), "nothing after the inner key block", "unexpected calls after the key block: %s" % [e[2] for e in rest],
                   relpath("%s:%d" % (f.file, f.line)))
         n += len(res)
@@ -251,15 +263,16 @@ def check_hmac(ck_ob, mod, label):
         inner[cname] = ev[0]
         return ev[1:]
     res = hmac_keyblock_events(ck_ob, f, label, 0x5C, 1, 2, "opad", expect_prefix=prefix)
-    for cname, (p, rest) in res.items():
+    for cname, (p, rest, wipes_) in res.items():
         e0 = inner[cname]
         want = bytes_sym("DIGEST", e0[1], 32)
-        ok = len(rest) == 3 and [e[2] for e in rest] in (["tinyjambu_hash_update", "tinyjambu_hash_finalize", "tinyjambu_clean"], ["tinyjambu_hash_update", "tinyjambu_clean", "tinyjambu_hash_finalize"])
+        ok = len(rest) == 2 and [e[2] for e in rest] == ["tinyjambu_hash_update", "tinyjambu_hash_finalize"]
         if ok:
-            fin_ = [e for e in rest if e[2] == "tinyjambu_hash_finalize"][0]
-            cln_ = [e for e in rest if e[2] == "tinyjambu_clean"][0]        # the local digest may be wiped as soon as it has been absorbed
+            fin_ = rest[1]
+            # the local digest is wiped (anywhere after it was absorbed: a wipe before that would show in the data absorbed)
+            okw = any(w_[3][0] == e0[3][1] and w_[3][1] == "32" for w_ in wipes_)
             ok = rest[0][3][1] == e0[3][1] and rest[0][3][2] == "32" and rest[0][4] is not None and tuple(map(tuple, rest[0][4])) == want \
-                and fin_[3] == (repr(Lf.s(("arg", 0))), OUT) and cln_[3][0] == e0[3][1] and cln_[3][1] == "32"
+                and fin_[3] == (repr(Lf.s(("arg", 0))), OUT) and okw
         ck_ob(ok, "SEQ", f.name, "finalize-outer(%s)[%s]" % (cname, label), "outer hash: key block (0x5C), update(inner digest, 32), finalize(out); local digest wiped",
               "after the outer key block: %s (expected update(inner digest,32); finalize(out); clean(local,32))" % [(e[2], e[3]) for e in rest], relpath("%s:%d" % (f.file, f.line)))
         n += 1
@@ -270,7 +283,26 @@ def check_hmac(ck_ob, mod, label):
     ev = calls(ps[0]) if len(ps) == 1 else []
     nm_ = [e[2] for e in ev]
     if nm_[:3] != ["tinyjambu_hmac_init", "tinyjambu_hmac_update", "tinyjambu_hmac_finalize"] or len(nm_) != 4 or nm_[3] not in ("tinyjambu_clean", "tinyjambu_hmac_free"):
-        raise Broken("tinyjambu_hmac (one-shot) is not written as init; update; finalize; wipe on a local state (calls %s): this shape is not analysed" % nm_)
+        # second recognised form: the inner key block set up in place (the static helper behind hmac_init, inlined), the message handed to
+        # the inner hash directly, then hmac_finalize and a wipe of the local state
+        K, KL = repr(Lf.s(("arg", 1))), repr(Lf.s(("n", 2)))
+        res = hmac_keyblock_events(ck_ob, f, label, 0x36, 1, 2, "oneshot-ipad", local_state=True)
+        if not res:
+            raise Broken("tinyjambu_hmac (one-shot) is not written as init; update; finalize; wipe on a local state (calls %s): this shape is not analysed" % nm_)
+        for cname, (p, rest, wipes_, S_, frees_) in res.items():
+            names_ = [e[2] for e in rest]
+            if len(rest) < 2 or names_[0] not in ("tinyjambu_hmac_update", "tinyjambu_hash_update") or names_[1] != "tinyjambu_hmac_finalize":
+                raise Broken("tinyjambu_hmac (one-shot), key length class %s: after the inner key block the calls are %s: this shape is not analysed" % (cname, names_))
+            okd = rest[0][3] == (S_, repr(Lf.s(("arg", 3))), repr(Lf.s(("n", 4))))
+            KLc = cname.split("=")[1] if cname.startswith("len=") else KL       # in a key-length class the length argument is that constant
+            okf = rest[1][3] == (S_, K, KLc, repr(Lf.s(("arg", 0))))
+            size_ = str(mod.typedef_size("tinyjambu_hmac_state_t"))
+            okw = any((e[2] == "tinyjambu_hmac_free" and e[3] == (S_,)) or (e[2] == "tinyjambu_clean" and e[3][:2] == (S_, size_)) for e in frees_) and len(rest) <= 3 \
+                and all(e[2] in ("tinyjambu_hmac_free",) for e in rest[2:])
+            ck_ob(okd and okf and okw, "SEQ", f.name, "one-shot(%s)[%s]" % (cname, label),
+                  "hmac(out,key,keylen,in,inlen) = inner key block; update(in, inlen); finalize(key, keylen, out); wipe of the local state",
+                  "one-shot HMAC after the inner key block: %s (local state %s)" % ([(e[2], e[3]) for e in rest], S_), relpath("%s:%d" % (f.file, f.line)))
+        return n + 2 + len(res)
     ok = True
     if ok:
         st = ev[0][3][0]
